@@ -13,8 +13,25 @@ import math
 import z3
 
 
-def canonicalise(formulas, domains):
-    """formulas: list of z3 Bool terms; domains: {var name: sorted list of ints}.  returns new formula list"""
+def canonicalise(formulas, domains, term_domains=()):
+    """formulas: list of z3 Bool terms; domains: {var name: sorted list of ints}; term_domains: [(term, domain)]
+    character-valued compound terms that are to be treated like variables.  returns new formula list"""
+    if term_domains:
+        domains = dict(domains)
+        subs = []
+        extra = []
+        for t, dom in term_domains:
+            if z3.is_const(t):
+                if t.decl().kind() == z3.Z3_OP_UNINTERPRETED:
+                    domains[t.decl().name()] = dom
+                continue
+            name = "chr!" + hashlib.sha1(t.sexpr().encode()).hexdigest()[:12]
+            v = z3.Int(name)
+            subs.append((t, v))
+            extra.append(v == t)
+            domains[name] = dom
+        if subs:
+            formulas = [z3.substitute(f, *subs) for f in formulas] + extra
     if not domains:
         return formulas
     fv_cache = {}
